@@ -13,8 +13,13 @@ parse call the adapter behaves like a caller that reuses its buffers: it overwri
 it had appended (they have been consumed) and the packets it was just given, and counts the calls
 after which the queue or a packet handed out earlier changed thereby (last line of the result; 0).
 Op 902 = the same history, observed at the parse operations only (large backlogs), model side through
-the linear-time formulation Model/ParserFast.v (proved equal to the one behind op 900)."""
-import itertools, resource
+the linear-time formulation Model/ParserFast.v (proved equal to the one behind op 900).
+Timing: the property quantifies over all interleavings of append and parse calls, however long the pauses between
+them.  Two histories out of three run under a simulated clock (class _Clock): every clock function of the `time`
+module (and every such function / the datetime class a library module imported by name) answers, for the calling
+thread only, the real reading plus an offset that the adapter advances between consecutive parser calls - by
+fractions of a second up to ten minutes in one third of the histories, by hours up to a century in another third."""
+import datetime as _dt, itertools, resource, sys, threading, time as _time, types
 from collections import deque
 from spacepackets.ccsds import spacepacket as sp
 
@@ -50,6 +55,12 @@ ASSUMPTIONS = [
     "mirror of the code for every queue and operation list (C13_run_ops_fast_eq)",
     "the adapter overwrites the caller's consumed chunk objects and the packets handed out after every parse call: the "
     "model's values are values, so any sharing of memory between queue, results and caller buffers is a disagreement",
+    "pauses between parser calls are simulated, not waited for: two histories out of three run with the clock functions of "
+    "the time module (monotonic, time, perf_counter, process_time, thread_time, clock_gettime and their _ns variants, also "
+    "when imported by name into a library module, and datetime.now / utcnow / today there) shifted forward between "
+    "consecutive parser calls by 0.25 s .. 10 min or by 1 h .. 100 years; the model has no notion of time, so any "
+    "dependence of the result on elapsed time is a disagreement.  A clock read through another route (os.times, a C "
+    "extension) is not simulated",
 ]
 TRUSTED = []
 ORACLE_LIMIT = {"quick": 40000, "thorough": 60000}   # the exhaustive streams are oracle-checked in full in the quick tier
@@ -74,7 +85,123 @@ def _flip(x):
     return bytes(x)
 
 
+# ------------------------------------------------------------------ simulated clock
+_CLOCK_NAMES = ("monotonic", "monotonic_ns", "time", "time_ns", "perf_counter", "perf_counter_ns", "process_time",
+                "process_time_ns", "thread_time", "thread_time_ns", "clock_gettime", "clock_gettime_ns")
+_REAL = {n: getattr(_time, n) for n in _CLOCK_NAMES if hasattr(_time, n)}
+_TL = threading.local()      # .offset_ns exists only while this thread is inside a history with a simulated clock
+
+
+def _shifted(name):
+    real, ns = _REAL[name], name.endswith("_ns")
+
+    def clock(*args):
+        off = getattr(_TL, "offset_ns", None)
+        v = real(*args)
+        if off is None:             # another thread of the harness (thread probe, the main loop): the real clock
+            return v
+        return v + off if ns else v + off / 1e9
+    clock.__name__ = clock.__qualname__ = name
+    return clock
+
+
+_SHIFTED = {n: _shifted(n) for n in _REAL}
+
+
+class _ShiftedDatetime(_dt.datetime):
+    """datetime whose 'now' follows the simulated clock of the calling thread"""
+    @classmethod
+    def now(cls, tz=None):
+        return cls.fromtimestamp(_SHIFTED["time"](), tz)
+
+    @classmethod
+    def today(cls):
+        return cls.fromtimestamp(_SHIFTED["time"]())
+
+    @classmethod
+    def utcnow(cls):
+        return cls.fromtimestamp(_SHIFTED["time"](), _dt.timezone.utc).replace(tzinfo=None)
+
+
+_DT_MODULE = types.ModuleType("datetime")
+_DT_MODULE.__dict__.update({k: v for k, v in vars(_dt).items() if not k.startswith("__")})
+_DT_MODULE.datetime = _ShiftedDatetime
+
+# amounts (seconds) by which the clock is advanced before a parser call, by mode of the history and call number
+_JUMPS = {1: (0.25, 1.5, 4.5, 5.5, 31.0, 61.0, 600.0), 2: (3600.0, 7201.0, 86400.0, 1.0e6, 3.2e9, 43200.0)}
+
+
+class _Clock:
+    """process-wide installation (reference-counted: the thread probe runs histories concurrently) of clock
+    functions that are shifted for the threads inside such a history and real for every other thread"""
+    lock = threading.Lock()
+    users = 0
+    saved = []       # (namespace dict, name, original value)
+
+    def __init__(self, mode):
+        self.mode = mode
+
+    def __enter__(self):
+        if self.mode:
+            with _Clock.lock:
+                if _Clock.users == 0:
+                    _Clock._install()
+                _Clock.users += 1
+            _TL.offset_ns = 0
+        return self
+
+    def advance(self, k):
+        if self.mode:
+            j = _JUMPS[self.mode]
+            _TL.offset_ns += int(j[k % len(j)] * 1e9)
+
+    def __exit__(self, *exc):
+        if self.mode:
+            del _TL.offset_ns
+            with _Clock.lock:
+                _Clock.users -= 1
+                if _Clock.users == 0:
+                    for d, n, v in reversed(_Clock.saved):
+                        d[n] = v
+                    _Clock.saved = []
+        return False
+
+    plan = None      # [(namespace dict, name, replacement)], recomputed when modules were imported since
+    plan_key = None
+
+    @staticmethod
+    def _install():
+        if _Clock.plan is None or _Clock.plan_key != len(sys.modules):
+            plan = [(vars(_time), n, f) for n, f in _SHIFTED.items()]
+            # names a library module bound at import time (from time import monotonic / from datetime import datetime / import datetime)
+            for mname, mod in list(sys.modules.items()):
+                if mod is None or not (mname == "spacepackets" or mname.startswith("spacepackets.")):
+                    continue
+                for k, v in list(vars(mod).items()):
+                    for n, real in _REAL.items():
+                        if v is real:
+                            plan.append((vars(mod), k, _SHIFTED[n]))
+                    if v is _dt.datetime:
+                        plan.append((vars(mod), k, _ShiftedDatetime))
+                    elif v is _dt:
+                        plan.append((vars(mod), k, _DT_MODULE))
+            _Clock.plan, _Clock.plan_key = plan, len(sys.modules)
+        for d, n, v in _Clock.plan:
+            _Clock.saved.append((d, n, d[n]))
+            d[n] = v
+
+
+def _clock_mode(a):
+    """0 = the real clock, 1 = pauses of up to ten minutes, 2 = pauses of hours and more; a function of the case only"""
+    return (len(a) + sum(len(o) for o in a[2:5])) % 3
+
+
 def _history(a, observe_appends):
+    with _Clock(_clock_mode(a)) as clock:
+        return _history_clocked(a, observe_appends, clock)
+
+
+def _history_clocked(a, observe_appends, clock):
     dflt = _ids(a[0])
     q = deque()
     out = []
@@ -96,6 +223,7 @@ def _history(a, observe_appends):
         if o and o[0] == 2 and k % 4 < 2:
             shared[:] = ids
             ids = shared
+        clock.advance(k)
         pk = sp.parse_space_packets(q, tuple(ids) if k % 2 else ids)
         out += _obs(pk, q)
         # the caller reuses its receive buffers and edits the packets it was given
@@ -447,6 +575,27 @@ def streams(tier, rng):
             total = rng.choice([65542, 70000, 100000, 131072]) + rng.randrange(-10, 11)
             cases.append(backlog_case(rng, IDS3, sizes_for(rng, total, 200, 30000), rng.choice([("every", rng.randrange(1000, 9000)), ("cuts", rng.randrange(1, 9)), ("prefix", rng.random(), 4096)])))
     yield "backlog_before_first_parse", "exact", cases
+    # 8. dependence on the NUMBER of earlier calls: one queue, thousands of parser calls (every packet in one to three
+    #    chunks, a parse after every chunk, junk now and then), compared call by call with the model and with the
+    #    generator's ground truth (the one-parse Spec comparison is quadratic in the stream length and left out here)
+    cases = []
+    for n_pk, ids in ((30000, IDS3), (20000, IDS1)) if big else ((8000, IDS3), (5000, IDS1)):
+        ops, segs = [], []
+        raws = {raw_id(*t) for t in ids}
+        for j in range(n_pk):
+            pk = make_packet(rng, ids[j % len(ids)], 7 + (j * 5) % 11, fill=FILLS[j % len(FILLS)])
+            if j % 401 == 400:      # junk in front of this packet (no window starting in it may look like a registered id)
+                for _ in range(50):
+                    junk = [rng.choice([0, 0xFF, rng.randrange(256)]) for _ in range(1 + j % 5)]
+                    if clean(junk + pk[:1], [-len(junk)], raws):
+                        segs.append(-len(junk))
+                        ops += [[0] + junk, [1]]
+                        break
+            segs.append(len(pk))
+            for c in chunks_of(pk, random_cuts(rng, len(pk), j % 3)):
+                ops += [[0 if j % 7 else 3] + c, [1]]
+        cases.append((902, [flat(ids), segs] + ops + [[1]]))
+    yield "many_calls_one_queue", "exact", cases
 
 
 # ------------------------------------------------------------------ oracle
@@ -512,25 +661,28 @@ def _oracle_history(op, a, ops, obs, sres):
             bounds.append((pos, pos + n))
         pos += abs(n)
     stream, returned, appended = [], [], 0
+    nb = 0                # number of packets complete in the octets appended so far (bounds are in stream order)
     for o, (pk, q) in zip(ops, obs):
         if _is_append(o):
             stream += o[1:]
             appended = len(stream)
             continue
-        returned += pk
         qcat = [x for c in q for x in c]
         if segs:
-            exp = [stream[s:e] for (s, e) in bounds if e <= appended]
-            if returned != exp:
+            # (incremental form of: everything returned so far == every packet complete so far)
+            n0 = len(returned)
+            while nb < len(bounds) and bounds[nb][1] <= appended:
+                nb += 1
+            if pk != [stream[s:e] for (s, e) in bounds[n0:nb]]:
                 return ("C13/parse_space_packets/lost-or-duplicated-packet",
-                        "after %d octets: %d packets returned so far, %d complete in the stream (segments %s)" % (appended, len(returned), len(exp), segs))
-            e_last = max([e for (s, e) in bounds if e <= appended] + [0])
-            s_next = min([s for (s, e) in bounds if e > appended] + [pos])
-            s_next = min(s_next, appended)
+                        "after %d octets: %d packets returned so far, %d complete in the stream (segments %s)" % (appended, n0 + len(pk), nb, segs[:40]))
+            e_last = bounds[nb - 1][1] if nb else 0
+            s_next = min(bounds[nb][0] if nb < len(bounds) else pos, appended)
             k = appended - len(qcat)
             if qcat != stream[k:appended] or not (e_last <= k <= s_next) or not (k == s_next or appended - k <= 6):
                 return ("C13/parse_space_packets/queue-tail",
                         "after %d octets the queue holds %d octets; the incomplete tail starts at %d (last complete packet ends at %d)" % (appended, len(qcat), s_next, e_last))
+        returned += pk
     # chunked parsing = one parse over everything (Spec.spec_stream), when the history ends with a parse
     if sres and ops and not _is_append(ops[-1]):
         sp_ = sres[0]
